@@ -207,8 +207,8 @@ add("s-rename-local-x", S, ["C01", "C03", "C04"], "dfols/controller.py",
     "        x = self.model.as_absolute_coordinates(xnew)\n        rvec_list, obj_list, num_samples_run, exit_info = self.evaluate_objective(x, number_of_samples, params)\n\n        # Handle exit conditions (f < min obj value or maxfun reached)\n        if exit_info is not None:\n            if num_samples_run > 0:\n                self.model.save_point(x, np.mean(rvec_list[:num_samples_run, :], axis=0), num_samples_run, self.nx,\n                                      x_in_abs_coords=True)\n            return exit_info  # didn't fix geometry - return & quit",
     "        x_abs = self.model.as_absolute_coordinates(xnew)\n        x = x_abs\n        rvec_list, obj_list, num_samples_run, exit_info = self.evaluate_objective(x_abs, number_of_samples, params)\n\n        # Handle exit conditions (f < min obj value or maxfun reached)\n        if exit_info is not None:\n            if num_samples_run > 0:\n                self.model.save_point(x_abs, np.mean(rvec_list[:num_samples_run, :], axis=0), num_samples_run, self.nx,\n                                      x_in_abs_coords=True)\n            return exit_info  # didn't fix geometry - return & quit")
 add("s-validation-order", S, ["C07", "C02"], "dfols/solver.py",
-    "    if exit_info is None and rhobeg <= 0.0:\n        exit_info = ExitInformation(EXIT_INPUT_ERROR, \"rhobeg must be strictly positive\")\n\n    if exit_info is None and rhoend <= 0.0:\n        exit_info = ExitInformation(EXIT_INPUT_ERROR, \"rhoend must be strictly positive\")\n",
-    "    if exit_info is None and rhoend <= 0.0:\n        exit_info = ExitInformation(EXIT_INPUT_ERROR, \"rhoend must be strictly positive\")\n\n    if exit_info is None and rhobeg <= 0.0:\n        exit_info = ExitInformation(EXIT_INPUT_ERROR, \"rhobeg must be strictly positive\")\n")
+    "    if exit_info is None and rhoend <= 0.0:\n        exit_info = ExitInformation(EXIT_INPUT_ERROR, \"rhoend must be strictly positive\")\n\n    if exit_info is None and rhobeg <= rhoend:\n        exit_info = ExitInformation(EXIT_INPUT_ERROR, \"rhobeg must be > rhoend\")\n",
+    "    if exit_info is None and rhobeg <= rhoend:\n        exit_info = ExitInformation(EXIT_INPUT_ERROR, \"rhobeg must be > rhoend\")\n\n    if exit_info is None and rhoend <= 0.0:\n        exit_info = ExitInformation(EXIT_INPUT_ERROR, \"rhoend must be strictly positive\")\n")
 add("s-validation-flipped", S, ["C07", "C02"], "dfols/solver.py", "if exit_info is None and maxfun <= 0:", "if exit_info is None and 0 >= maxfun:")
 add("s-pbox-clip", S, ["C01", "C09", "C15", "C13"], "dfols/util.py", "    return np.minimum(np.maximum(x,l), u)", "    return np.clip(x, l, u)")
 add("s-hoist-remove-scaling", S, ["C01", "C02", "C06"], "dfols/controller.py",
